@@ -5,7 +5,9 @@ from lib.sysrun import Case
 
 LEVEL = "proof"
 THEOREMS = ["Kalign.weave", "Kalign.degap_makeLinear", "Kalign.C01_merge_integrity", "Kalign.C01_tree_integrity",
-            "Kalign.C01_rows", "Kalign.C01_no_allgap_column", "Kalign.C01_expandPath_valid"]
+            "Kalign.C01_rows", "Kalign.C01_no_allgap_column", "Kalign.C01_expandPath_valid",
+            # the k-means guide tree (>= 100 sequences) keeps every sequence: leaves of the tree = the samples
+            "Kalign.Kmeans.split2_partition", "Kalign.Kmeans.bisectingKmeans_leaves", "Kalign.Kmeans.bisectingKmeans_fuel"]
 CHECKER = "lake build KalignModel.Props.C01 && lake env lean KalignModel/Audit/C01.lean"
 
 
@@ -228,6 +230,10 @@ def run(ctx):
     kvh = C.build_harness("asan")
     # 1. unit correspondence
     lines = unit_ops(ctx, 3000 if ctx.quick else 40000)
+    kops = C.gen_ops("gen_kmeans.py", ctx.seed, 1 if ctx.quick else 3, prefixes=("split2", "split2_serial", "kmeans_tree", "pick_anchor"))
+    if ctx.quick:
+        kops = [l for l in kops if not l.startswith("kmeans_tree")][:60] + [l for l in kops if l.startswith("kmeans_tree")][:6]
+    lines += kops
     diffs = C.correspond(kvh, lines)
     ctx.count("unit_ops", len(lines))
     ctx.evaluations += len(lines)
